@@ -9,7 +9,7 @@ import numpy as np
 
 from .. import gens
 from ..harness import watchdog, WatchdogTimeout, digest
-from ..refmodels import ref_next_imf, guard_margin
+from ..refmodels import ref_next_imf, guard_margin, guard_margin_single
 
 MANIFEST = {
     'text': 'Held on every comparison executed: for seeded order-one signals x all stop rules / step sizes / interpolants / pad widths the real get_next_imf, sift and mask_sift are run on x and on the transformed input; results must be bit-identical for c = +-2^k (|k|<=8; mask_sift c>0, ratio amplitudes) and agree to 1e-10 relative for arbitrary real c and for time reversal, unless a stop/extremum decision of the original run lies within a measured guard band (1e-6), in which case the comparison is excluded and counted. Sampling, not proof.',
@@ -37,6 +37,10 @@ def gen_case(rng, routine):
     x = gens.signal(rng, kind, n)
     x = x / max(np.abs(x).max(), 1e-12) * float(rng.uniform(.5, 2))
     io = gens.imf_opts(rng)
+    if routine == 'gni' and kind == 'int' and rng.random() < .6:
+        # quantised data with exact plateaus: one or two iterations depend only on exact comparisons
+        io = {'stop_method': 'fixed', 'max_iters': int(rng.integers(1, 3)), 'env_step_size': float(gens.pick(rng, [1, .5]))}
+        x = np.round(x * 4) / 4
     if routine == 'gni' and io['stop_method'] != 'fixed':
         io['max_iters'] = 1000
     c = {'kind': routine, 'family': kind, 'x': x, 'imf_opts': io, 'envelope_opts': eo, 'extrema_opts': gens.ext_opts(rng)}
@@ -53,17 +57,19 @@ def gen_case(rng, routine):
     return c
 
 
-def _margins(S, x, io, eo, xo):
+def _margins(S, x, io, eo, xo, single=False):
     def env(p, mode):
         return S.interp_envelope(p, mode=mode, **eo, extrema_opts=xo)
     mo = {k: v for k, v in io.items() if k != 'energy_thresh'}
     mo.setdefault('max_iters', 1000)
     out, k, val, trace = ref_next_imf(x, env, max_steps=mo['max_iters'] + 2, **mo)
-    g = guard_margin(trace)
+    g = guard_margin_single(trace) if single else guard_margin(trace)
     if out == 'noext':
         # the decision "no envelopes" is an extremum count on the final iterate
         p = val[:, 0]
         d = np.abs(np.diff(p))
+        if single and k == 1:
+            d = d[d > 0]   # exact ties of the input itself are safe
         sc = np.abs(p).max() or 1.0
         g = min(g, float(d.min() / sc) if len(d) else 1.0)
     return g, out, k
@@ -83,7 +89,7 @@ def check_gni(ctx, case):
     try:
         with watchdog(60):
             base = run(x)
-            g, mout, mk = _margins(S, x, io, eo, xo)
+            g, mout, mk = _margins(S, x, io, eo, xo, single=True)
             ctx.case(dig, not (mout == 'noext' and mk == 1))
             for c in case['pow2']:
                 t = run(c * x)
@@ -102,6 +108,8 @@ def check_gni(ctx, case):
             if g < GUARD:
                 ctx.count('gni_guard_excluded:' + meth)
                 return
+            if np.any(np.diff(x) == 0):
+                ctx.count('gni_approx_with_exact_plateaus')
             sc = np.abs(x).max()
             c = case['real']
             t = run(c * x)
